@@ -19,6 +19,9 @@ def lcm_all(xs):
 
 class C01(core.Check):
     pid = 'C01'
+    unproved = [
+        'warm-up injection (inject_warmup_candles_to_store) is not in the engine model: decided by the paired-run oracle with injected warm-up candles',
+    ]
     gen_keys = ['jesse/services/candle.py:split_candle', 'jesse/services/candle.py:generate_candle_from_one_minutes',
                 'jesse/modes/backtest_mode.py:_get_fixed_jumped_candle', 'jesse/services/candle.py:candle_includes_price']
     rule = ('correspondence: whole sessions (1-2 symbols, trading timeframe 1m..15m, extra data-route timeframes, spot and '
@@ -33,13 +36,13 @@ class C01(core.Check):
     def correspondence(self, res, boost):
         jesse_env.setup()
         rng = random.Random(self.seed * 7919 + 1)
-        sessions = [engcorr.gen_session(rng) for _ in range(self.budget(30, 500, boost))]
+        sessions = [engcorr.gen_session(rng) for _ in range(self.budget(80, 500, boost))]
         engcorr.compare_sessions(res, sessions)
 
     def oracle(self, res, boost):
         jesse_env.setup()
         rng = random.Random(self.seed * 104729 + 5)
-        for _ in range(self.budget(40, 800, boost)):
+        for _ in range(self.budget(100, 800, boost)):
             sess = engcorr.gen_session(rng, max_n=120, tight=rng.random() < 0.4, vol=rng.choice([4, 8]))
             if rng.random() < 0.35:
                 sess['warmup'] = 720        # half a day of injected warm-up candles (a multiple of every timeframe used)
